@@ -705,6 +705,36 @@ def gen_field_func(tree):
             "  end.\n")
 
 
+def gen_completeness(tree):
+    """check_dimensions / check_excitations: for src in sources: for arg in (<names>): if hasattr(src, arg):
+    if getattr(src, arg) is None: raise MagpylibMissingInput ; break"""
+    out = []
+    for fname, dname in (("check_dimensions", "dimension_args"), ("check_excitations", "excitation_args")):
+        fn = get_fn(tree, fname)
+        if argnames(fn) != ["sources"]:
+            raise Untranslatable(f"{fname} signature")
+        body = strip_doc(fn.body)
+        ok = len(body) == 1 and isinstance(body[0], ast.For) and is_name(body[0].target, "src") \
+            and is_name(body[0].iter, "sources") and not body[0].orelse and len(body[0].body) == 1
+        inner = body[0].body[0] if ok else None
+        ok = ok and isinstance(inner, ast.For) and is_name(inner.target, "arg") and isinstance(inner.iter, ast.Tuple) \
+            and all(isinstance(x, ast.Constant) and isinstance(x.value, str) for x in inner.iter.elts) \
+            and not inner.orelse and len(inner.body) == 1
+        test = inner.body[0] if ok else None
+        ok = ok and isinstance(test, ast.If) and ast.unparse(test.test) == "hasattr(src, arg)" and not test.orelse \
+            and len(test.body) == 2 and isinstance(test.body[1], ast.Break)
+        g = test.body[0] if ok else None
+        ok = ok and isinstance(g, ast.If) and ast.unparse(g.test) == "getattr(src, arg) is None" and not g.orelse \
+            and len(g.body) == 1 and isinstance(g.body[0], ast.Raise) and isinstance(g.body[0].exc, ast.Call) \
+            and is_name(g.body[0].exc.func, "MagpylibMissingInput")
+        if not ok:
+            raise Untranslatable(f"{fname} no longer has the known shape")
+        names = "; ".join('"%s"' % x.value for x in inner.iter.elts)
+        out.append(f"(* {fname}: the first of these attributes a source has must not be None (MagpylibMissingInput) *)\n"
+                   f"Definition {dname} : list string := [{names}]%string.\n")
+    return "\n".join(out)
+
+
 def generate(repo):
     path = os.path.join(repo, "magpylib/_src/input_checks.py")
     tree = ast.parse(open(path).read())
@@ -719,4 +749,5 @@ def generate(repo):
     out.append(gen_cylseg(tree, vec_defaults))
     out.append(gen_orientation(tree))
     out.append(gen_field_func(tree))
+    out.append(gen_completeness(tree))
     return "\n".join(out)
